@@ -1,5 +1,6 @@
 SPECIFICATION Spec
 CONSTANT MaxPath = 3
 CONSTANT Slice = 1
+CONSTANT Real = FALSE
 INVARIANT Emit
 INVARIANT Laws
